@@ -1,0 +1,59 @@
+//go:build verif
+
+package kotel
+
+// Verification contracts (comments only), read by /verif/govc. Compiled only with -tags verif; no code.
+
+// ---- C37: RecordCarrier is a string map over record.Headers (first matching header wins) ----
+
+// getRel(hs, k, v): v is what a map lookup of k in the header list hs yields.
+//@ spec getRel(hs []kgo.RecordHeader, k string, v string) bool =
+//@      ((forall j in 0..len(hs) :: hs[j].Key != k) ==> v == "")
+//@      && (forall j in 0..len(hs) :: (hs[j].Key == k && (forall i in 0..j :: hs[i].Key != k)) ==> v == string(hs[j].Value))
+
+//@ func (c RecordCarrier) Get(key string) (v string)
+//@   prop C37
+//@   nopanic
+//@   pure
+//@   loop 0 invariant forall j in 0..rangeindex+1 :: c.record.Headers[j].Key != key
+//@   ensures getRel(c.record.Headers, key, v)
+
+//@ func (c RecordCarrier) Keys() (out []string)
+//@   prop C37
+//@   nopanic
+//@   loop 0 invariant forall j in 0..rangeindex+1 :: out[j] == c.record.Headers[j].Key
+//@   loop 0 invariant len(out) == len(c.record.Headers)
+//@   ensures len(out) == len(c.record.Headers)
+//@   ensures forall j in 0..len(out) :: out[j] == c.record.Headers[j].Key
+
+// Set: either the first header with that key gets the new value and nothing else changes, or (no such key)
+// one header (key, val) is appended and the existing headers are kept.
+//@ func (c RecordCarrier) Set(key string, val string)
+//@   prop C37
+//@   nopanic
+//@   loop 0 invariant forall j in 0..rangeindex+1 :: old(c.record.Headers[j].Key) != key
+//@   ensures forall j in 0..old(len(c.record.Headers)) :: (old(c.record.Headers[j].Key) == key && (forall i in 0..j :: old(c.record.Headers[i].Key) != key)) ==>
+//@           string(c.record.Headers[j].Value) == val
+//@   ensures (exists j in 0..old(len(c.record.Headers)) :: old(c.record.Headers[j].Key) == key) ==> len(c.record.Headers) == old(len(c.record.Headers))
+//@   ensures forall i in 0..old(len(c.record.Headers)) :: c.record.Headers[i].Key == old(c.record.Headers[i].Key)
+//@   ensures forall i in 0..old(len(c.record.Headers)) :: old(c.record.Headers[i].Key) != key ==> c.record.Headers[i].Value == old(c.record.Headers[i].Value)
+//@   ensures (forall j in 0..old(len(c.record.Headers)) :: old(c.record.Headers[j].Key) != key) ==>
+//@           (len(c.record.Headers) == old(len(c.record.Headers)) + 1
+//@            && c.record.Headers[old(len(c.record.Headers))].Key == key && string(c.record.Headers[old(len(c.record.Headers))].Value) == val
+//@            && (forall i in 0..old(len(c.record.Headers)) :: c.record.Headers[i].Key == old(c.record.Headers[i].Key) && c.record.Headers[i].Value == old(c.record.Headers[i].Value)))
+
+// Map laws, as lemmas over the relations above (hs: headers before Set(k, val), hs2: after).
+//@ lemma set_then_get_update: forall hs []kgo.RecordHeader :: forall hs2 []kgo.RecordHeader :: forall k string :: forall val string :: forall v string :: forall j int ::
+//@      (0 <= j && j < len(hs) && hs[j].Key == k && (forall i in 0..j :: hs[i].Key != k)
+//@       && len(hs2) == len(hs) && string(hs2[j].Value) == val && (forall i in 0..len(hs2) :: hs2[i].Key == hs[i].Key)
+//@       && getRel(hs2, k, v)) ==> v == val
+//@   prop C37
+//@ lemma set_then_get_append: forall hs []kgo.RecordHeader :: forall hs2 []kgo.RecordHeader :: forall k string :: forall val string :: forall v string ::
+//@      ((forall j in 0..len(hs) :: hs[j].Key != k)
+//@       && len(hs2) == len(hs) + 1 && hs2[len(hs)].Key == k && string(hs2[len(hs)].Value) == val && (forall i in 0..len(hs) :: hs2[i].Key == hs[i].Key)
+//@       && getRel(hs2, k, v)) ==> v == val
+//@   prop C37
+// Not stated as a lemma: "Get(k2) is unchanged by Set(k, v) for k2 != k". It follows from Set's
+// postconditions (keys kept, values of headers with other keys kept) by induction on the position of the
+// first header with key k2 (a least-element argument), which the SMT back ends do not perform; the
+// per-header frame is what is proved.
